@@ -148,6 +148,7 @@ def _opt_disc(ex, v):
             return d.v == 1
         t = ex.branch(d.v == z3.BitVecVal(1, 64))
         ex.run.known[('disc', v.disc.get_id())] = 1 if t else 0
+        ex.run.keep.append(v.disc)
         return t
     raise Unsupported('expected Option/Result, got %r' % (v,))
 
